@@ -28,7 +28,7 @@ def gen_int(rnd, d, V, lits=True):
     if d <= 0 or c < 0.25:
         if not lits or rnd.random() < 0.7:
             return ("ivar", rnd.randrange(len(V.ints)))
-        return ("ilit", rnd.randint(-3, 3))
+        return ("ilit", rnd.randint(-3, 3) if rnd.random() < 0.65 else rnd.choice(WIDE_LITS))
     k = rnd.randrange(8)
     if k == 0:
         return ("neg", gen_int(rnd, d - 1, V, lits=False))
@@ -190,7 +190,8 @@ def intended_solutions(solver, V, terms, cap=200000):
     return [a for a in gen if all(meaning(t, V, a) is True for t in terms)]
 
 
-DOMAINS = [(0, 1), (-2, 1), (3, 3), (0, 3), (-1, 0), (-3, -3)]
+DOMAINS = [(0, 1), (-2, 1), (3, 3), (0, 3), (-1, 0), (-3, -3), (255, 258), (-19, -16), (1000, 1001), (-70001, -70000), (2 ** 40, 2 ** 40 + 1)]
+WIDE_LITS = [-70000, -50, -18, -17, -16, 15, 16, 17, 255, 256, 257, 258, 300, 1000, 1001, 2 ** 40]
 
 
 def new_program(rnd, nb=None, ni=None):
@@ -282,6 +283,10 @@ def one_operator_matrix():
     out.append(("ensure(False)", [("blit", False)]))
     out.append(("no constraint", []))
     out.append(("bcount", [("cmp", "eq", ("bcount", bv(1)), ("ilit", 1))]))
+    for c in WIDE_LITS:
+        out.append(("wide-const %d" % c, [("cmp", "eq", ("add", iv(0), ("ilit", c)), ("ilit", c + 1))]))
+        out.append(("wide-const-ge %d" % c, [("cmp", "ge", ("add", iv(1), ("ilit", c)), ("ilit", c + 3))]))
+        out.append(("wide-count %d" % c, [("cmp", "eq", ("add", ("count_true", [bv(0), ("blit", True)], "flat"), ("ilit", c)), ("ilit", c + 1))]))
     return out
 
 
